@@ -242,7 +242,7 @@ def _bind(helper, call, is_method):
 _counter = [0]
 
 
-def expand_call(helper, call, caller_locals, is_method=False, receiver=None, result_name=None):
+def expand_call(helper, call, caller_locals, is_method=False, receiver=None, result_name=None, pure_direct=False):
     """(prelude statements, body statements with `return e` rewritten through
     `make_result`, result-expression-or-None).  The caller decides what to do
     with the result."""
@@ -292,6 +292,11 @@ def expand_call(helper, call, caller_locals, is_method=False, receiver=None, res
         arg = bound[p]
         simple = isinstance(arg, (ast.Name, ast.Constant)) or (
             isinstance(arg, ast.Attribute) and isinstance(arg.value, ast.Name) and arg.value.id in ('self', 'np'))
+        if not simple and pure_direct:
+            # a pure argument may be written where the parameter stood (single-expression helpers in
+            # positions that cannot take a prelude: loop/branch headers, comprehensions)
+            from .normal import is_pure
+            simple = is_pure(arg) and not (_loaded_names(arg) & (locs | set(mapping)))
         if p not in rebound and simple and not (isinstance(arg, ast.Name) and arg.id in locs):
             subst[p] = arg
         else:
@@ -406,12 +411,21 @@ class Inliner:
                 for n in res:
                     ast.copy_location(n, s) if not hasattr(n, 'lineno') else None
                 return res or [ast.copy_location(ast.Pass(), s)]
-        # single-expression helpers anywhere inside a simple statement
-        if isinstance(s, (ast.Expr, ast.Assign, ast.AugAssign, ast.Return, ast.AnnAssign)):
+        # single-expression helpers anywhere inside a simple statement, or in the header of a compound one
+        header = None
+        if isinstance(s, (ast.If, ast.While, ast.Assert)):
+            header = 'test'
+        elif isinstance(s, ast.For):
+            header = 'iter'
+        elif isinstance(s, ast.Raise) and s.exc is not None:
+            header = 'exc'
+        if isinstance(s, (ast.Expr, ast.Assign, ast.AugAssign, ast.Return, ast.AnnAssign)) or header:
             prel = []
             me = self
 
             class Sub(ast.NodeTransformer):
+                strict = 0      # > 0: no prelude possible here (comprehension, lambda-free header of a while)
+
                 def visit_Call(self, node):
                     self.generic_visit(node)
                     t = me._target(node)
@@ -421,9 +435,19 @@ class Inliner:
                     if not _single_expr_helper(helper):
                         return node
                     try:
-                        prelude, body, tag = expand_call(helper, node, caller_locals, is_method, recv)
+                        prelude, body, tag = expand_call(helper, node, caller_locals, is_method, recv, pure_direct=self.strict > 0)
                     except _Refuse:
                         return node
+                    if self.strict > 0 and prelude:
+                        return node
+                    if self.strict > 0:
+                        # comprehension variables of the helper expression must not capture names of the arguments
+                        hv = {n.id for c in ast.walk(body[0].value) if isinstance(c, ast.comprehension) for n in ast.walk(c.target) if isinstance(n, ast.Name)}
+                        av = set()
+                        for a in list(node.args) + [k.value for k in node.keywords]:
+                            av |= _loaded_names(a)
+                        if hv & av:
+                            return node
                     prel.extend(prelude)
                     me.done.append(helper.name)
                     return ast.copy_location(body[0].value, node)
@@ -432,10 +456,26 @@ class Inliner:
                     return node
 
                 def visit_ListComp(self, node):
+                    self.strict += 1
+                    try:
+                        self.generic_visit(node)
+                    finally:
+                        self.strict -= 1
                     return node
 
                 visit_SetComp = visit_DictComp = visit_GeneratorExp = visit_ListComp
             before = len(self.done)
+            if header:
+                sub = Sub()
+                if isinstance(s, ast.While):
+                    sub.strict = 1
+                e = getattr(s, header)
+                ne = sub.visit(copy.deepcopy(e))
+                if len(self.done) > before:
+                    s2 = copy.copy(s)
+                    setattr(s2, header, ne)
+                    return prel + [s2]
+                return None
             new = Sub().visit(copy.deepcopy(s))
             if len(self.done) > before:
                 return prel + [new]
